@@ -4,7 +4,7 @@
 # exit 0 iff at least one of the named checks reports a VIOLATION (i.e. the mutant is detected).
 set -u
 patch="$(readlink -f "$1")"; shift
-export GOFLAGS=-mod=mod GOPROXY=off
+export GOFLAGS="-mod=mod -trimpath" GOPROXY=off
 T=$(mktemp -d "${TMPDIR:-/tmp}/emcheck-mut-XXXXXX")
 trap 'rm -rf "$T"' EXIT
 mkdir -p "$T/repo" "$T/verif"
